@@ -98,6 +98,13 @@ def check_string(ctx, s: str, multiline: bool, opts: dict, tag: str) -> None:
     got = list(tok)     # iteration stops at the first EOF
     ok = len(got) == 1 and got[0][0] is Token.STRING and type(got[0][1]) is str and got[0][1] == s
     if not ok:
+        if len(s) > 300:    # long strings: say what differs instead of dumping them
+            gv = got[0][1] if len(got) == 1 and type(got[0][1]) is str else None
+            where = next((i for i, (a, b) in enumerate(zip(gv, s)) if a != b), min(len(gv), len(s))) if gv is not None else None
+            ctx.fail('inverse', f'[{tag}] multiline={multiline} len(s)={len(s)} s[:60]={s[:60]!r}: '
+                     + (f'token value has {len(gv)} characters, first difference at {where}: got {gv[where:where + 30]!r} '
+                        f'want {s[where:where + 30]!r}' if gv is not None else f'{len(got)} tokens, kinds {[t[0].name for t in got[:5]]}'),
+                     multiline=multiline)
         ctx.fail('inverse', f'[{tag}] multiline={multiline} s={s!r} escaped={e!r}: tokens={got!r}, want [(STRING, {s!r})]',
                  multiline=multiline)
     for k in range(3):
